@@ -214,6 +214,41 @@ theorem runWith_cutoff_mono (rule : Nat → Nat → Nat) (hr : ∀ c n, c ≤ ru
 
 end CSampler
 
+/-! ### raw swap and conversion -/
+
+theorem swapSamplers_spec (a b : CSampler) (ha : a.Inv) (hb : b.Inv) :
+    (swapSamplers a b).1.cutoff = max a.cutoff b.cutoff ∧
+    (swapSamplers a b).2.cutoff = max a.cutoff b.cutoff ∧
+    (swapSamplers a b).1.n = b.n ∧ (swapSamplers a b).2.n = a.n ∧
+    (swapSamplers a b).1.len = max a.cutoff b.cutoff ∧
+    (swapSamplers a b).2.len = max a.cutoff b.cutoff ∧
+    (swapSamplers a b).1.Inv ∧ (swapSamplers a b).2.Inv := by
+  unfold CSampler.Inv at ha hb
+  have l1 : (swapSamplers a b).1.len = max a.cutoff b.cutoff := by
+    show (CSampler.setCutoff _ _).len = _
+    rw [CSampler.setCutoff_len, growLen_eq_max]
+    show max b.len _ = _
+    omega
+  have l2 : (swapSamplers a b).2.len = max a.cutoff b.cutoff := by
+    show (CSampler.setCutoff _ _).len = _
+    rw [CSampler.setCutoff_len, growLen_eq_max]
+    show max a.len _ = _
+    omega
+  refine ⟨rfl, rfl, CSampler.setCutoff_n _ _, CSampler.setCutoff_n _ _, l1, l2, ?_, ?_⟩
+  · unfold CSampler.Inv; rw [l1]; exact Nat.le_refl _
+  · unfold CSampler.Inv; rw [l2]; exact Nat.le_refl _
+
+theorem convertSampler_spec (nvars : Nat) (s : CSampler) :
+    (convertSampler nvars s).cutoff = s.cutoff ∧ (convertSampler nvars s).n = s.n ∧
+    (convertSampler nvars s).len = growLen s.len s.cutoff ∧
+    (s.Inv → (convertSampler nvars s).Inv) := by
+  refine ⟨rfl, CSampler.setCutoff_n _ _, CSampler.setCutoff_len _ _, ?_⟩
+  intro h
+  exact CSampler.setCutoff_inv _ _ h
+
+theorem inv_n_le (s : CSampler) (h : s.Inv) : s.n ≤ s.cutoff :=
+  Nat.le_trans (CSampler.n_le_len s) h
+
 /-! ### maximum over replicas -/
 
 theorem foldl_max_ge_init (cs : List Nat) (a : Nat) : a ≤ cs.foldl max a := by
